@@ -137,7 +137,9 @@ def condition_language(t, var, R):
     """Language of strings for which the guard holds."""
     s = _src(t)
     # x[0].isdigit()
-    if s == f'{var}[0].isdigit()':
+    if s in (f'{var}[0].isdigit()', f'{var}[:1].isdigit()', f'{var}[0:1].isdigit()'):
+        # x[0] on the empty string would raise; the slice form is simply False there - either way
+        # the guard holds exactly for strings that start with a digit
         return regex_to_dfa('^[0-9].*$')
     # re.match(r'^...$', x)
     if isinstance(t, ast.Call) and _src(t.func) == 're.match' and len(t.args) == 2 and isinstance(t.args[0], ast.Constant) \
@@ -148,6 +150,20 @@ def condition_language(t, var, R):
             isinstance(t.ops[0], ast.In) and _src(t.comparators[0]) == '_get_reserved_names()':
         return DFA.finite(R)
     raise Undecided(f'guard outside the transformer vocabulary: {s!r}')
+
+
+def concrete_input_for(w):
+    """Replay of a witness on the real function: an input string whose output is the witness."""
+    try:
+        import importlib
+        naming = importlib.import_module('serif.naming')
+        cands = [w, '_' + w, '$' + w, ' ' + w, w + '_', w.upper(), '(' + w + ')', w.replace('_', ' ')]
+        for c in cands:
+            if naming._sanitize_user_name(c) == w:
+                return f'; replayed natively: _sanitize_user_name({c!r}) == {w!r}'
+    except Exception:
+        pass
+    return '; no concrete input found among the simple candidates'
 
 
 def obligations(pid, tier):
@@ -175,7 +191,7 @@ def obligations(pid, tier):
         if w is None:
             out.append(ob(name, 'discharged'))
         else:
-            out.append(ob(name, 'refuted', why, f'witness output string {w!r}'))
+            out.append(ob(name, 'refuted', why, f'witness output string {w!r}' + concrete_input_for(w)))
     # non-vacuity: the language is not empty and None is returned only for the empty remainder
     out.append(ob('lang:non-vacuous', 'discharged' if (not F.is_empty() and F.accepts('a') and F.accepts('c1')) else 'refuted',
                   '' if not F.is_empty() else 'empty output language'))
